@@ -139,6 +139,11 @@ func vghostInc(name string)             {}
 func vghostGet(name string) int         { return 0 }
 func vnow() int64                       { return 0 }
 func vparam(name string, def int) int   { return def }
+func vand(a, b bool) bool               { return a && b }
+func vor(a, b bool) bool                { return a || b }
+func vimplies(a, b bool) bool           { return !a || b }
+func vcutActive() bool                  { return false }
+func vrandPush(v uint32)                {}
 `
 	}
 	return "package " + pkg + `
@@ -237,6 +242,11 @@ func vufBool(name string, arg uint64) bool {
 func vghostInc(name string)     { vghosts[name]++ }
 func vghostGet(name string) int { return vghosts[name] }
 func vnow() int64               { return int64(vmodel[vname("now")]) }
+func vand(a, b bool) bool     { return a && b }
+func vor(a, b bool) bool      { return a || b }
+func vimplies(a, b bool) bool { return !a || b }
+func vcutActive() bool        { return false }
+func vrandPush(v uint32)      {}
 func vparam(name string, def int) int {
 	vload()
 	if v, ok := vparams[name]; ok {
